@@ -10,14 +10,16 @@
 // the nesting outline of all data-m markers of the output; vuego is never asked for the expectation.
 //
 // Deliberately not asserted (unspecified by the statement / docs):
-//   - v-once combined with v-if / v-else on the SAME element (is an element whose own condition is
-//     false "reached"?) - conditions are only put on ancestors;
-//   - v-once on <template>, on the element that carries v-html="content";
+//   - v-once on the element that carries v-html="content"; <template v-once v-keep>;
+//   - (asserted, with this reading: an element whose own v-if is false, or that is a v-else /
+//     v-else-if member of a chain in which another member is chosen, is not instantiated there - it
+//     is "reached" only where its condition selects it);
 //   - slots beyond what carries a marked element to its position: only plain default content
 //     (children of the include tag), one named slot (#s1 / v-slot:s1) and <slot> fallback content are
 //     generated; no scoped slot props, no <slot> inside supplied or fallback content, no named slot
-//     templates in sites that have layouts (a layout chain hands the page's slot templates on to the
-//     layouts' components, which is C06's business);
+//     content on include tags in sites that have layouts (a layout chain hands every slot template of
+//     the page on to the layouts); the hand-over itself is generated in its plainest form only: slot
+//     templates #ph / v-slot:pf at the top of the page, filled by <slot name> written in a layout file;
 //   - component files whose first node is <template> (everything after that node is dropped by the
 //     include machinery whether or not v-once is involved) - every component file starts with a
 //     plain marker element;
@@ -60,12 +62,23 @@ const prop = "C16"
 //	slot: <slot>Kids</slot> or, with Nm, <slot name="s1">Kids</slot> - only in component files;
 //	      Kids = fallback content. Supplied content and fallback content are instantiated once per
 //	      rendering of the slot, i.e. they are further "instantiations of that same element".
+//
+// A once item may be a member of a conditional chain (Ch), with Cond / Eq as the condition:
+//
+//	if    : the marked element carries v-if="…" itself
+//	else  : <p data-m="uM" v-if="…">u</p> followed by the marked element with v-else
+//	elseif: the same with v-else-if="t" on the marked element and a trailing <p v-else>
+//	tpl   : <template v-once><Tag data-m="oM">…</Tag></template> - the directive sits on a wrapper
+//
+//	pslot: <slot name="ph">Kids</slot> (Nm: "pf") written in a LAYOUT file: filled with the content of
+//	      the page's <template #ph> / <template v-slot:pf> (Page.Ph / Page.Pf), else Kids (fallback)
 type Item struct {
 	K    string `json:"k"`
 	M    int    `json:"m,omitempty"`
 	Tag  string `json:"tag,omitempty"`
 	Self bool   `json:"self,omitempty"`
 	Sp   int    `json:"sp,omitempty"` // once: spelling of the directive, index into spellings
+	Ch   string `json:"ch,omitempty"` // once: "", "if", "else", "elseif", "tpl"
 	N    int    `json:"n,omitempty"`
 	Cond bool   `json:"cond,omitempty"`
 	Eq   int    `json:"eq,omitempty"`
@@ -77,9 +90,14 @@ type Item struct {
 }
 
 // Page is a page file pg<i>.vuego; Layout (optional) goes into its front matter.
+// Ph / Pf are the contents of slot templates <template #ph> / <template v-slot:pf> written at the
+// top of the page: the page itself renders their children in place, and a layout chain hands them
+// on to the <slot name="ph|pf"> elements of the layouts.
 type Page struct {
 	Items  []Item `json:"items"`
 	Layout string `json:"layout,omitempty"`
+	Ph     []Item `json:"ph,omitempty"`
+	Pf     []Item `json:"pf,omitempty"`
 }
 
 // Layout is layouts/<name>.vuego: Before, the element receiving the inner content, After.
@@ -184,6 +202,17 @@ func onceBody(it Item) string {
 	return fmt.Sprintf("t%d", it.M)
 }
 
+// condSrc is the condition of an if item / of a chain a once item belongs to.
+func condSrc(it Item) string {
+	if it.Eq > 0 {
+		return fmt.Sprintf("x == %d", it.Eq)
+	}
+	if it.Cond {
+		return "t"
+	}
+	return "f"
+}
+
 func src(items []Item, sb *strings.Builder) {
 	for _, it := range items {
 		switch it.K {
@@ -196,6 +225,19 @@ func src(items []Item, sb *strings.Builder) {
 			if it.Self {
 				attrs += fmt.Sprintf(` v-for="x in n%d"`, it.N)
 			}
+			switch it.Ch {
+			case "if":
+				attrs += fmt.Sprintf(` v-if="%s"`, condSrc(it))
+			case "else":
+				fmt.Fprintf(sb, "<p data-m=\"u%d\" v-if=\"%s\">u</p>\n", it.M, condSrc(it))
+				attrs += " v-else"
+			case "elseif":
+				fmt.Fprintf(sb, "<p data-m=\"u%d\" v-if=\"%s\">u</p>\n", it.M, condSrc(it))
+				attrs += ` v-else-if="t"`
+			case "tpl":
+				fmt.Fprintf(sb, "<template %s>", sp)
+				attrs = fmt.Sprintf(`data-m="o%d"`, it.M)
+			}
 			fmt.Fprintf(sb, "<%s %s>", it.Tag, attrs)
 			if isBox(it.Tag) {
 				sb.WriteString("\n")
@@ -204,18 +246,18 @@ func src(items []Item, sb *strings.Builder) {
 				sb.WriteString(onceBody(it))
 			}
 			fmt.Fprintf(sb, "</%s>\n", it.Tag)
+			switch it.Ch {
+			case "elseif":
+				fmt.Fprintf(sb, "<p data-m=\"z%d\" v-else>z</p>\n", it.M)
+			case "tpl":
+				sb.WriteString("</template>\n")
+			}
 		case "for":
 			fmt.Fprintf(sb, "<div data-m=\"w%d\" v-for=\"x in n%d\">\n", it.M, it.N)
 			src(it.Kids, sb)
 			sb.WriteString("</div>\n")
 		case "if":
-			cond := "f"
-			if it.Eq > 0 {
-				cond = fmt.Sprintf("x == %d", it.Eq)
-			} else if it.Cond {
-				cond = "t"
-			}
-			fmt.Fprintf(sb, "<div data-m=\"v%d\" v-if=\"%s\">\n", it.M, cond)
+			fmt.Fprintf(sb, "<div data-m=\"v%d\" v-if=\"%s\">\n", it.M, condSrc(it))
 			src(it.Kids, sb)
 			sb.WriteString("</div>\n")
 		case "div":
@@ -238,10 +280,15 @@ func src(items []Item, sb *strings.Builder) {
 				sb.WriteString("</template>\n")
 			}
 			sb.WriteString("</template>\n")
-		case "slot":
-			if it.Nm {
+		case "slot", "pslot":
+			switch {
+			case it.K == "pslot" && it.Nm:
+				sb.WriteString("<slot name=\"pf\">")
+			case it.K == "pslot":
+				sb.WriteString("<slot name=\"ph\">")
+			case it.Nm:
 				sb.WriteString("<slot name=\"s1\">")
-			} else {
+			default:
 				sb.WriteString("<slot>")
 			}
 			if len(it.Kids) > 0 {
@@ -259,6 +306,16 @@ func pageName(i int) string { return fmt.Sprintf("pg%d.vuego", i) }
 func pageBody(i int, p Page) string {
 	var sb strings.Builder
 	fmt.Fprintf(&sb, "<i data-m=\"pg%d\">p</i>\n", i)
+	if len(p.Ph) > 0 {
+		sb.WriteString("<template #ph>\n")
+		src(p.Ph, &sb)
+		sb.WriteString("</template>\n")
+	}
+	if len(p.Pf) > 0 {
+		sb.WriteString("<template v-slot:pf>\n")
+		src(p.Pf, &sb)
+		sb.WriteString("</template>\n")
+	}
 	src(p.Items, &sb)
 	sb.WriteString(pageTail)
 	return sb.String()
@@ -315,6 +372,7 @@ func data(s Step) map[string]any {
 func validate(c Case) error {
 	seenM := map[int]bool{}
 	inContent := 0 // > 0 while inside supplied slot content or fallback content
+	inLayout := false
 	var walk func(items []Item, file string, comp int, inLoop bool, head bool) error
 	walk = func(items []Item, file string, comp int, inLoop bool, head bool) error {
 		for _, it := range items {
@@ -338,6 +396,19 @@ func validate(c Case) error {
 				}
 				if it.Self && (it.N < 0 || it.N > 3) {
 					return fmt.Errorf("bad n")
+				}
+				switch it.Ch {
+				case "":
+				case "if", "else", "elseif":
+					if it.Self || head || (it.Eq > 0 && (!inLoop || inContent > 0)) || it.Eq > 3 || it.Eq < 0 {
+						return fmt.Errorf("o%d: bad chain member", it.M)
+					}
+				case "tpl":
+					if it.Self || head {
+						return fmt.Errorf("o%d: bad template wrapper", it.M)
+					}
+				default:
+					return fmt.Errorf("o%d: bad ch %q", it.M, it.Ch)
 				}
 				if err := walk(it.Kids, file, comp, inLoop, false); err != nil {
 					return err
@@ -378,6 +449,16 @@ func validate(c Case) error {
 					}
 				}
 				inContent--
+			case "pslot":
+				if !inLayout || inContent > 0 || head {
+					return fmt.Errorf("bad page slot in %s", file)
+				}
+				inContent++
+				err := walk(it.Kids, file, comp, false, false)
+				inContent--
+				if err != nil {
+					return err
+				}
 			case "slot":
 				if comp < 0 || inContent > 0 || head {
 					return fmt.Errorf("bad slot in %s", file)
@@ -403,6 +484,13 @@ func validate(c Case) error {
 		if err := walk(p.Items, pageName(i), -1, false, false); err != nil {
 			return err
 		}
+		inContent++
+		for _, part := range [][]Item{p.Ph, p.Pf} {
+			if err := walk(part, pageName(i), -1, false, false); err != nil {
+				return err
+			}
+		}
+		inContent--
 	}
 	for _, name := range compOrder {
 		if items, ok := c.Comps[name]; ok {
@@ -432,11 +520,13 @@ func validate(c Case) error {
 		if !l.Doc && len(l.Head) > 0 {
 			return fmt.Errorf("layout %s: head without doc", name)
 		}
+		inLayout = true
 		for _, part := range [][]Item{l.Before, l.After} {
 			if err := walk(part, name, -1, false, false); err != nil {
 				return err
 			}
 		}
+		inLayout = false
 		if err := walk(l.Head, name, -1, false, true); err != nil {
 			return err
 		}
@@ -478,11 +568,25 @@ type link struct {
 	seen    map[int]bool
 	reached map[int]int // marker -> number of times its position was reached in this render
 	loop    []int
-	sb      strings.Builder
+	// what the layout chain hands on from the page: contents of its #ph / v-slot:pf templates
+	ph, pf []Item
+	// bookkeeping for the regions of known findings
+	inherited   int          // > 0 while walking handed-on page content
+	inhReached  map[int]bool // marked elements of handed-on content reached in this link
+	passedFalse map[int]bool // own-v-if members that were passed with a false condition before their first reach
+	lateIf      map[int]bool // ... and were reached afterwards
+	sb          strings.Builder
 }
 
 func newLink(c *Case) *link {
-	return &link{c: c, seen: map[int]bool{}, reached: map[int]int{}}
+	return &link{c: c, seen: map[int]bool{}, reached: map[int]int{}, inhReached: map[int]bool{}, passedFalse: map[int]bool{}, lateIf: map[int]bool{}}
+}
+
+func (l *link) cond(it Item) bool {
+	if it.Eq > 0 {
+		return len(l.loop) > 0 && l.loop[len(l.loop)-1] == it.Eq
+	}
+	return it.Cond
 }
 
 func (l *link) walk(items []Item) {
@@ -493,10 +597,29 @@ func (l *link) walk(items []Item) {
 			if it.Self {
 				inst = it.N // every loop iteration instantiates the marked element itself
 			}
+			if it.Ch == "if" || it.Ch == "else" || it.Ch == "elseif" {
+				cond := l.cond(it)
+				if it.Ch == "if" && !cond {
+					if !l.seen[it.M] {
+						l.passedFalse[it.M] = true
+					}
+					continue // not instantiated here
+				}
+				if it.Ch != "if" && cond {
+					fmt.Fprintf(&l.sb, "u%d()", it.M) // the chain's v-if member is chosen instead
+					continue
+				}
+			}
 			for k := 0; k < inst; k++ {
 				l.reached[it.M]++
+				if l.inherited > 0 {
+					l.inhReached[it.M] = true
+				}
 				if l.seen[it.M] {
 					continue
+				}
+				if l.passedFalse[it.M] {
+					l.lateIf[it.M] = true
 				}
 				l.seen[it.M] = true
 				fmt.Fprintf(&l.sb, "o%d(", it.M)
@@ -518,11 +641,7 @@ func (l *link) walk(items []Item) {
 				l.loop = l.loop[:len(l.loop)-1]
 			}
 		case "if":
-			ok := it.Cond
-			if it.Eq > 0 {
-				ok = len(l.loop) > 0 && l.loop[len(l.loop)-1] == it.Eq
-			}
-			if ok {
+			if l.cond(it) {
 				fmt.Fprintf(&l.sb, "v%d(", it.M)
 				l.walk(it.Kids)
 				l.sb.WriteString(")")
@@ -537,6 +656,21 @@ func (l *link) walk(items []Item) {
 			l.scope = &scope{def: it.Kids, named: it.Named, parent: old}
 			l.walk(l.c.Comps[it.Comp])
 			l.scope = old
+		case "pslot":
+			content := l.ph
+			if it.Nm {
+				content = l.pf
+			}
+			if len(content) > 0 {
+				old := l.scope
+				l.scope = nil
+				l.inherited++
+				l.walk(content)
+				l.inherited--
+				l.scope = old
+			} else {
+				l.walk(it.Kids)
+			}
 		case "slot":
 			var content []Item
 			if l.scope != nil {
@@ -564,6 +698,7 @@ type expectation struct {
 	doc     bool
 	links   []string       // files rendered, page first
 	reached []map[int]int  // per link
+	ls      []*link        // per link (bookkeeping for known-finding regions)
 	emitted map[string]int // marker id -> occurrences in the final output
 }
 
@@ -572,10 +707,13 @@ func expect(c *Case, s Step) expectation {
 	p := c.Pages[s.P]
 	l := newLink(c)
 	fmt.Fprintf(&l.sb, "pg%d()", s.P)
+	l.walk(p.Ph) // a slot template that is not inside an include tag renders its children in place
+	l.walk(p.Pf)
 	l.walk(p.Items)
 	out := l.sb.String()
 	e.links = append(e.links, pageName(s.P))
 	e.reached = append(e.reached, l.reached)
+	e.ls = append(e.ls, l)
 	if layoutAware(s.Entry) {
 		name := p.Layout
 		if name == "" {
@@ -586,6 +724,7 @@ func expect(c *Case, s Step) expectation {
 		for name != "" {
 			lay := c.Layouts[name]
 			l := newLink(c) // each link of the chain is a render of its own
+			l.ph, l.pf = p.Ph, p.Pf
 			l.walk(lay.Head)
 			l.walk(lay.Before)
 			fmt.Fprintf(&l.sb, "m%s(%s)", name, out)
@@ -593,6 +732,7 @@ func expect(c *Case, s Step) expectation {
 			out = l.sb.String()
 			e.links = append(e.links, "layouts/"+name+".vuego")
 			e.reached = append(e.reached, l.reached)
+			e.ls = append(e.ls, l)
 			e.doc = lay.Doc
 			name = lay.Next
 		}
@@ -676,11 +816,23 @@ func where(c *Case, m int) string {
 		if it.Self {
 			s = fmt.Sprintf("<%s %s v-for=\"x in n%d\"> in %s", it.Tag, sp, it.N, file)
 		}
+		switch it.Ch {
+		case "if":
+			s = fmt.Sprintf("<%s %s v-if=\"%s\"> in %s", it.Tag, sp, condSrc(*it), file)
+		case "else":
+			s = fmt.Sprintf("<%s %s v-else> after <p v-if=\"%s\"> in %s", it.Tag, sp, condSrc(*it), file)
+		case "elseif":
+			s = fmt.Sprintf("<%s %s v-else-if=\"t\"> after <p v-if=\"%s\"> in %s", it.Tag, sp, condSrc(*it), file)
+		case "tpl":
+			s = fmt.Sprintf("<%s> inside <template %s> in %s", it.Tag, sp, file)
+		}
 		return s
 	}
 	for i, p := range c.Pages {
-		if it := find(p.Items); it != nil {
-			return desc(it, pageName(i))
+		for _, part := range [][]Item{p.Items, p.Ph, p.Pf} {
+			if it := find(part); it != nil {
+				return desc(it, pageName(i))
+			}
 		}
 	}
 	for _, n := range compOrder {
@@ -809,6 +961,15 @@ func classify(c Case) (bool, []string) {
 				if it.Self {
 					set[fmt.Sprintf("once+for-same-element n=%d", it.N)] = true
 				}
+				switch it.Ch {
+				case "if", "else", "elseif":
+					set["once=chain-member:"+it.Ch] = true
+					if it.Eq > 0 {
+						set["once=chain-member:"+it.Ch+" on loop variable"] = true
+					}
+				case "tpl":
+					set["once=on-template-wrapper"] = true
+				}
 				walk(it.Kids, kind, inLoop, true, underIf)
 			case "for":
 				set[fmt.Sprintf("loop n=%d", it.N)] = true
@@ -847,6 +1008,12 @@ func classify(c Case) (bool, []string) {
 				}
 				walk(it.Kids, kind+"/slot-content", false, inOnce, underIf)
 				walk(it.Named, kind+"/slot-content", false, inOnce, underIf)
+			case "pslot":
+				set["layout-fills-page-slot"] = true
+				if inLoop {
+					set["layout-fills-page-slot-in-loop"] = true
+				}
+				walk(it.Kids, kind+"/slot-fallback", false, inOnce, underIf)
 			case "slot":
 				set["component-has-slot"] = true
 				if inLoop {
@@ -863,6 +1030,8 @@ func classify(c Case) (bool, []string) {
 	}
 	for _, p := range c.Pages {
 		walk(p.Items, "page", false, false, false)
+		walk(p.Ph, "page-slot-template", false, false, false)
+		walk(p.Pf, "page-slot-template", false, false, false)
 	}
 	compsWith := 0
 	for _, n := range compOrder {
@@ -925,6 +1094,21 @@ func classify(c Case) (bool, []string) {
 			set["interleaved-programs"] = true
 		}
 		set[fmt.Sprintf("chain-links=%d", len(e.links))] = true
+		for _, l := range e.ls {
+			if len(l.inhReached) >= 1 {
+				set["page-slot-content-reached-in-layout"] = true
+			}
+			if len(l.inhReached) >= 2 {
+				set["page-slot-content: >=2 distinct once reached in one layout"] = true
+			}
+			if len(l.lateIf) > 0 {
+				set["own-v-if false before first reach"] = true
+			}
+			for m := range l.passedFalse {
+				_ = m
+				set["own-v-if passed with false condition"] = true
+			}
+		}
 		if layoutAware(s.Entry) && c.Pages[s.P].Layout == "" && len(e.links) > 1 {
 			set["default-base-layout"] = true
 		}
@@ -1005,7 +1189,19 @@ func (u *uni) slot(name string, tags []string) []Item {
 	return []Item{{K: "once", M: u.id(), Tag: tags[u.kinds%len(tags)], Sp: (u.sp + u.kinds - 1) % len(spellings)}}
 }
 
-var pageSlots = []string{"s0", "s1", "s2", "s3", "s4", "s5", "q0", "q1", "a0", "a1", "a2", "b0", "c0", "t0", "t1", "f0", "f1"}
+// slotCh is slot with the marked element as a chain member / under a template wrapper.
+func (u *uni) slotCh(name string, tags []string, ch string, cond bool, eq int) []Item {
+	its := u.slot(name, tags)
+	for i := range its {
+		its[i].Ch, its[i].Cond, its[i].Eq = ch, cond, eq
+	}
+	return its
+}
+
+var pageSlots = []string{"s0", "s1", "s2", "s3", "s4", "s5", "q0", "q1", "a0", "a1", "a2", "b0", "c0", "t0", "t1", "f0", "f1", "e0", "e1", "i0", "i1", "k0"}
+
+// slots in the page's #ph / v-slot:pf templates (sites with layouts)
+var handedSlots = []string{"ph0", "ph1", "pf0"}
 var l1Slots = []string{"lb", "ll"}
 var docSlots = []string{"h0", "la"}
 
@@ -1019,6 +1215,9 @@ func universeSlots(p uparams) []string {
 	s := append([]string(nil), pageSlots...)
 	if p.chain == "none" {
 		s = append(s, "t2") // named slot content: only in sites without layouts
+	}
+	if p.chain != "none" {
+		s = append(s, handedSlots...)
 	}
 	switch p.chain {
 	case "l1":
@@ -1053,6 +1252,9 @@ func universe(fill []string, p uparams) Case {
 	}
 	P = append(P, Item{K: "for", M: u.id(), N: 3, Kids: []Item{{K: "if", M: u.id(), Eq: 2, Kids: u.slot("s3", all)}}})
 	P = append(P, Item{K: "div", M: u.id(), Kids: u.slot("s4", all)})
+	// chain members: v-else after <p v-if="x == 1"> and own v-if="x == 2" in a loop of 3; template wrapper
+	P = append(P, Item{K: "for", M: u.id(), N: 3, Kids: append(u.slotCh("e0", all, "else", false, 1), u.slotCh("i0", all, "if", false, 2)...)})
+	P = append(P, Item{K: "for", M: u.id(), N: p.nA, Kids: u.slotCh("k0", all, "tpl", false, 0)})
 	// component D has a default slot and a named slot, both with fallback content; the page includes
 	// it in a loop with default content, then with named content (sites without layouts), then twice bare
 	P = append(P, Item{K: "for", M: u.id(), N: p.nB, Kids: []Item{{K: "inc", Comp: "D",
@@ -1072,8 +1274,10 @@ func universe(fill []string, p uparams) Case {
 	A = append(A, u.slot("a0", all)...)
 	A = append(A, Item{K: "for", M: u.id(), N: p.nA, Kids: u.slot("a1", all)}, inc("C"))
 	A = append(A, u.slot("a2", all)...)
+	A = append(A, u.slotCh("e1", all, "elseif", false, 0)...)
 	var B []Item
 	B = append(B, u.slot("b0", all)...)
+	B = append(B, u.slotCh("i1", all, "if", true, 0)...)
 	B = append(B, inc("C"))
 	C := u.slot("c0", all)
 	D := []Item{{K: "slot", Kids: u.slot("f0", all)}, {K: "for", M: u.id(), N: 2, Kids: []Item{{K: "slot", Nm: true, Kids: u.slot("f1", all)}}}}
@@ -1084,15 +1288,19 @@ func universe(fill []string, p uparams) Case {
 	}
 	mkL1 := func(next string) Layout {
 		l := Layout{Next: next}
-		l.Before = u.slot("lb", all)
-		l.After = []Item{{K: "for", M: u.id(), N: p.nA, Kids: u.slot("ll", all)}, inc("B")}
+		l.Before = append(u.slot("lb", all), Item{K: "pslot"})
+		l.After = []Item{{K: "for", M: u.id(), N: p.nA, Kids: append(u.slot("ll", all), Item{K: "pslot", Nm: true})}, inc("B")}
 		return l
 	}
 	mkDoc := func() Layout {
 		l := Layout{Doc: true}
 		l.Head = u.slot("h0", []string{"style", "script"})
-		l.After = append(u.slot("la", all), inc("A"))
+		l.After = append(u.slot("la", all), inc("A"), Item{K: "pslot", Nm: true}, Item{K: "for", M: u.id(), N: 2, Kids: []Item{{K: "pslot"}}})
 		return l
+	}
+	if p.chain != "none" {
+		c.Pages[0].Ph = append(u.slot("ph0", all), u.slot("ph1", all)...)
+		c.Pages[0].Pf = u.slot("pf0", all)
 	}
 	switch p.chain {
 	case "l1":
@@ -1156,6 +1364,7 @@ type gen struct {
 	// inContent > 0 while drawing supplied slot content or fallback content (no <slot>, no x==k there)
 	inContent int
 	namedOK   bool // named slot content only in sites without layouts
+	inLayout  bool // drawing a layout body: <slot name="ph|pf"> allowed
 }
 
 func (g *gen) id() int { g.next++; return g.next }
@@ -1178,6 +1387,9 @@ func (g *gen) items(label string, comp, depth int, inLoop bool, max int) []Item 
 		}
 		if comp >= 0 && g.inContent == 0 {
 			kinds = append(kinds, "slot")
+		}
+		if g.inLayout && g.inContent == 0 {
+			kinds = append(kinds, "pslot", "pslot")
 		}
 		if depth >= 3 {
 			kinds = []string{"once"}
@@ -1203,6 +1415,20 @@ func (g *gen) items(label string, comp, depth int, inLoop bool, max int) []Item 
 				it.Kids = g.items(l, comp, depth+1, inLoop, 2)
 			default:
 				it.Tag = rapid.SampledFrom(leafTags).Draw(g.t, l+"tag")
+			}
+			if !it.Self {
+				switch ch := rapid.IntRange(0, 11).Draw(g.t, l+"ch"); ch {
+				case 0, 1, 2:
+					it.Ch = []string{"if", "else", "elseif"}[ch]
+					if inLoop && g.inContent == 0 && rapid.Bool().Draw(g.t, l+"cheq?") {
+						it.Eq = rapid.IntRange(1, 3).Draw(g.t, l+"cheq")
+					} else {
+						// mostly the condition that selects the marked member
+						it.Cond = (rapid.IntRange(0, 3).Draw(g.t, l+"chcond") > 0) == (ch == 0)
+					}
+				case 3:
+					it.Ch = "tpl"
+				}
 			}
 			out = append(out, it)
 		case "for":
@@ -1235,6 +1461,14 @@ func (g *gen) items(label string, comp, depth int, inLoop bool, max int) []Item 
 				g.inContent--
 			}
 			out = append(out, it)
+		case "pslot":
+			it := Item{K: "pslot", Nm: rapid.IntRange(0, 2).Draw(g.t, l+"nm") == 0}
+			if depth < 3 && rapid.Bool().Draw(g.t, l+"fb?") {
+				g.inContent++
+				it.Kids = g.items(l+"f", comp, depth+1, false, 2)
+				g.inContent--
+			}
+			out = append(out, it)
 		case "slot":
 			it := Item{K: "slot", Nm: rapid.IntRange(0, 2).Draw(g.t, l+"nm") == 0}
 			if depth < 3 {
@@ -1258,6 +1492,22 @@ func genCase() func(t *rapid.T) Case {
 		nLay := rapid.SampledFrom([]int{0, 0, 1, 2, 3}).Draw(t, "layouts")
 		hasBase := rapid.IntRange(0, 3).Draw(t, "base") == 0
 		g.namedOK = nLay == 0 && !hasBase
+		nPages := rapid.IntRange(1, 2).Draw(t, "pages")
+		// slot templates of the pages that a layout chain hands on (drawn first: they get their share
+		// of the marked elements)
+		phs := make([][2][]Item, nPages)
+		if !g.namedOK {
+			g.inContent++
+			for i := range phs {
+				if rapid.Bool().Draw(t, "ph?") {
+					phs[i][0] = g.items(fmt.Sprintf("ph%d", i), -1, 1, false, 2)
+				}
+				if rapid.IntRange(0, 2).Draw(t, "pf?") == 0 {
+					phs[i][1] = g.items(fmt.Sprintf("pf%d", i), -1, 1, false, 2)
+				}
+			}
+			g.inContent--
+		}
 		// components first (innermost budget use is fine: every part draws from the same budget)
 		for i := nComps - 1; i >= 0; i-- {
 			c.Comps[g.comps[i]] = g.items("c"+g.comps[i], i, 1, false, 3)
@@ -1275,8 +1525,10 @@ func genCase() func(t *rapid.T) Case {
 					l.Head = []Item{{K: "once", M: g.id(), Tag: rapid.SampledFrom([]string{"style", "script"}).Draw(t, "headtag"), Sp: rapid.IntRange(0, len(spellings)-1).Draw(t, "headsp")}}
 				}
 			}
+			g.inLayout = true
 			l.Before = g.items("lb"+chain[i], -1, 1, false, 2)
 			l.After = g.items("la"+chain[i], -1, 1, false, 2)
+			g.inLayout = false
 			c.Layouts[chain[i]] = l
 		}
 		if hasBase {
@@ -1285,12 +1537,13 @@ func genCase() func(t *rapid.T) Case {
 				g.budget--
 				l.Head = []Item{{K: "once", M: g.id(), Tag: rapid.SampledFrom([]string{"style", "script"}).Draw(t, "baseheadtag"), Sp: rapid.IntRange(0, len(spellings)-1).Draw(t, "baseheadsp")}}
 			}
-			l.After = g.items("base", -1, 1, false, 2)
+			g.inLayout = true
+			l.After = g.items("base", -1, 1, false, 3)
+			g.inLayout = false
 			c.Layouts["base"] = l
 		}
-		nPages := rapid.IntRange(1, 2).Draw(t, "pages")
 		for i := 0; i < nPages; i++ {
-			p := Page{Items: g.items(fmt.Sprintf("p%d", i), -1, 0, false, 4)}
+			p := Page{Items: g.items(fmt.Sprintf("p%d", i), -1, 0, false, 4), Ph: phs[i][0], Pf: phs[i][1]}
 			if nLay > 0 && rapid.IntRange(0, 3).Draw(t, "haslayout") > 0 {
 				p.Layout = chain[rapid.IntRange(0, nLay-1).Draw(t, "layout")]
 			}
@@ -1314,6 +1567,8 @@ func genCase() func(t *rapid.T) Case {
 		}
 		for _, p := range c.Pages {
 			mark(p.Items)
+			mark(p.Ph)
+			mark(p.Pf)
 		}
 		for _, n := range layoutOrder {
 			l := c.Layouts[n]
@@ -1383,8 +1638,17 @@ func TestProp(t *testing.T) {
 	n, ok := 0, true
 enum:
 	for _, p := range params {
-		for _, fill := range subsets(universeSlots(p), maxFill) {
-			for k := range entries {
+		for j, fill := range subsets(universeSlots(p), maxFill) {
+			// one marked element: all 7 entry histories; two: 3 of them; three: 2 - rotating, so that
+			// every entry meets every kind of filling
+			ks := []int{0, 1, 2, 3, 4, 5, 6}
+			switch len(fill) {
+			case 2:
+				ks = []int{j % 7, (j + 3) % 7, (j + 5) % 7}
+			case 3:
+				ks = []int{j % 7, (j + 4) % 7}
+			}
+			for _, k := range ks {
 				n++
 				if n%shards != shard {
 					continue
@@ -1400,7 +1664,7 @@ enum:
 		}
 	}
 	if ok {
-		rec.Exhaustive(fmt.Sprintf("universe site: every choice of 1..%d of its slots x %d parameter sets x %d entry histories (%d cases)", maxFill, len(params), len(entries), n))
+		rec.Exhaustive(fmt.Sprintf("universe site: every choice of 1..%d of its slots x %d parameter sets x 7/3/2 entry histories for 1/2/3 filled slots (%d cases)", maxFill, len(params), n))
 	}
 
 	run.Rapid(t, rec, "random", genCase(), classify, check)
